@@ -51,6 +51,25 @@ CHECKS.update({
             "DESIGN.md §4 C03"),
 })
 
+CHECKS.update({
+    "C10": ("simquic+sched", "size-oracle runtime monitor: a raw peer sends/advertises exact RFC 9114 §4.2.2 sizes (reference encoder) around every limit; accept/refuse decisions, 431 behaviour and the sizes of HEADERS frames h3 writes (reference decoder) are compared with the oracle",
+            "The grid limits x (L-2..L+2) x field counts x {request, response, trailers} x {receive, send} x roles x {SETTINGS applied, never delivered} is run completely plus random sizes; every decision must equal s <= L and no oversized HEADERS may reach the wire. Held-on-observed.",
+            "Trusts refimpl/qpack.rs for sizes; SETTINGS timing made deterministic by two phases; sizes above ~70 KB not constructed.",
+            "DESIGN.md §4 C10"),
+    "C12": ("simquic+sched", "three-valued reference-predicate runtime monitor (MUST_REJECT / MUST_ACCEPT / DONT_CARE) over generated field lists, checked against h3's header validation directly and end to end through a raw peer; wire-order monitor for sent HEADERS",
+            "10^5 (quick) field lists with single and combined defects go through Header::try_from/into_*_parts, thousands more are injected end to end (outcome must be StreamError H3_MESSAGE_ERROR without connection error, or delivery with equal content), and the HEADERS frames of generated messages are decoded by the reference to check pseudo-field order/uniqueness/values. Held-on-observed.",
+            "Trusts the predicate in props/c12.rs (RFC latitude is DONT_CARE) and the reference QPACK codec.",
+            "DESIGN.md §4 C12"),
+    "C13": ("simquic+sched", "complete enumeration of builder configurations against a raw peer with reference parsing of the emitted SETTINGS; reference SETTINGS model vs applied values observed through public getters / HeaderTooBig for received payloads (permutations, duplicates, reserved ids, varint forms, truncations)",
+            "All 2024 builder configurations are built (no panic, one well-formed SETTINGS frame, exact values, grease iff on); thousands of received payloads are judged by the reference model and the applied values read back; defaults checked before SETTINGS arrive. Held-on-observed; the configuration space is covered completely.",
+            "Trusts refimpl/frames.rs::judge_settings; boolean settings > 1 and repeated unknown ids are don't-care; max_webtransport_sessions not observable on receive.",
+            "DESIGN.md §4 C13"),
+    "C14": ("simquic+sched", "online RFC 9114 reference checker over every byte stream written by real h3 endpoints running generated API programs under PRNG write-acceptance patterns; DATA frames matched against the buffers handed to send_data (Bytes and segmented Buf)",
+            "Thousands of API programs (finish/drop/reset endings, split halves, shutdown(n), configurations, 1-byte write acceptance) per run; every stream h3 wrote is parsed by the reference and every DATA frame compared with its send_data buffer. Held-on-observed.",
+            "Trusts refimpl/wire.rs; streams abandoned mid-frame are not judged for completeness; implicit FIN on drop (Quinn behaviour) is not a finish.",
+            "DESIGN.md §4 C14"),
+})
+
 NOT_YET = {}
 
 def main():
